@@ -22,7 +22,8 @@ RULE = ("full matrix scheme {http, https, ws, wss} x port {implicit, explicit de
         "socks5, socks5h} x (http1, http2) in {(T,F),(T,T),(F,T)} x server ALPN {none, http/1.1, h2} x sni_hostname "
         "{unset, set} x flavour (rotating), each followed by a reuse request; plus seeded sequences of 12 requests over "
         "near-miss origins (http://a:80, ws://a:80, https://a:443, wss://a:443, http://a:8080, https://a:8443, "
-        "http://b:80, https://b:443) per proxy kind; distinct+non-trivial = configuration tuple / sequence whose "
+        "http://b:80, https://b:443) per proxy kind, 40% of them with ONE ssl.SSLContext object shared by the origin and proxy "
+        "handshakes and half of those with a second pool (opposite http2 switch) sharing it too; distinct+non-trivial = configuration tuple / sequence whose "
         "request reached an endpoint")
 ASSUMPTIONS = ["endpoints accept plaintext or TLS on any port and record which they got; the verdict is the oracle's",
                "ALPN offer is read from the recording ssl.SSLContext the pool was given at handshake time"]
@@ -33,7 +34,20 @@ EXHAUSTIVE = False
 PROXIES = [None, "http", "https", "socks5", "socks5h"]
 
 
-def build(flavor, proxy, http1, http2, server_alpn, hosts_ports):
+def build(flavor, proxy, http1, http2, server_alpn, hosts_ports, shared_ctx=None, net=None, origins=None, px=None):
+    """shared_ctx: one ssl.SSLContext object used for the origin AND (for https proxies) the proxy handshake - and,
+    when net/origins/px are passed in, by a second pool on the same simulated network."""
+    if net is not None:
+        pcfg = None
+        if proxy in ("http", "https"):
+            pcfg = {"url": f"{proxy}://proxy.test:3128"}
+        elif proxy in ("socks5", "socks5h"):
+            pcfg = {"url": f"{proxy}://socks.test:1080"}
+        if pcfg is not None and shared_ctx is not None and proxy == "https":
+            pcfg["ssl_context"] = shared_ctx
+        kw = {"ssl_context": shared_ctx} if shared_ctx is not None else {}
+        pool = mk_pool(flavor, net, proxy=pcfg, http1=http1, http2=http2, **kw)
+        return net, origins, px, pool, API(flavor, pool, net)
     net = simnet.Net()
     origins = {}
     reg = proxy is None
@@ -47,7 +61,12 @@ def build(flavor, proxy, http1, http2, server_alpn, hosts_ports):
     elif proxy in ("socks5", "socks5h"):
         px = endpoints.Socks5Proxy(net, "socks.test", 1080, origins=list(origins.values()))
         pcfg = {"url": f"{proxy}://socks.test:1080"}
-    pool = mk_pool(flavor, net, proxy=pcfg, http1=http1, http2=http2)
+    kw = {}
+    if shared_ctx is not None:
+        kw["ssl_context"] = shared_ctx
+        if pcfg is not None and proxy == "https":
+            pcfg["ssl_context"] = shared_ctx
+    pool = mk_pool(flavor, net, proxy=pcfg, http1=http1, http2=http2, **kw)
     return net, origins, px, pool, API(flavor, pool, net)
 
 
@@ -108,7 +127,7 @@ def judge_request(net, origins, px, proxy, http1, http2, scheme, host, port_eff,
         if ("h2" in offered) != bool(http2):
             v("alpn-offer:" + ("h2-offered-although-disabled" if "h2" in offered else "h2-not-offered-although-enabled"),
               f"ALPN offer {offered} with http2={http2}", ctx)
-        if req.tls_info["ctx"] != "origin":
+        if req.tls_info["ctx"] not in ("origin", "shared"):
             v("wrong-ssl-context-for-origin", f"origin handshake used context {req.tls_info['ctx']!r}", ctx)
     cnt["oracle_h2"] += 1
     if req.proto == "h2":
@@ -120,8 +139,11 @@ def judge_request(net, origins, px, proxy, http1, http2, scheme, host, port_eff,
         v("h1-although-h2-negotiated", "ALPN selected h2 but HTTP/1.1 was spoken", ctx)
     if proxy == "https":
         # the proxy hop must itself be TLS (first layer, proxy context)
-        if not tr.layers or tr.layers[0]["ctx"] != "proxy":
+        if not tr.layers or tr.layers[0]["ctx"] not in ("proxy", "shared"):
             v("https-proxy-hop-not-tls", f"layers {tr.layers}", ctx)
+        elif "h2" in (tr.layers[0]["alpn_offered"] or []):
+            # connections to the proxy itself never speak HTTP/2
+            v("alpn-offer:h2-offered-to-the-proxy", f"TLS handshake with the proxy offered {tr.layers[0]['alpn_offered']}", ctx)
         elif tr.layers[0]["sni"] != "proxy.test" and not (via == "forward" and tr.layers[0]["sni"] == sni_ext):
             # (for a forwarded request the only TLS connection made is the one to the proxy, so applying the
             # request's sni_hostname extension to it is accepted)
@@ -201,8 +223,16 @@ def run_sequences(case):
         for _ in range(case["n"]):
             proxy = r.choice(PROXIES)
             http2 = r.random() < 0.4
-            net, origins, px, pool, api = build(flavor, proxy, True, http2, ["h2", "http/1.1"] if http2 else ["http/1.1"],
-                                                sorted({(h, p) for _, h, p in NEAR}))
+            shared = simnet.RecordingSSLContext("shared") if r.random() < 0.4 else None
+            two_pools = shared is not None and r.random() < 0.5
+            net, origins, px, pool, api = build(flavor, proxy, True, http2, ["h2", "http/1.1"],
+                                                sorted({(h, p) for _, h, p in NEAR}), shared_ctx=shared)
+            pools = [(pool, api, http2)]
+            if two_pools:
+                # a second pool with the opposite HTTP/2 switch shares the caller's SSLContext object
+                _, _, _, pool2, api2 = build(flavor, proxy, True, not http2, None, None, shared_ctx=shared, net=net,
+                                             origins=origins, px=px)
+                pools.append((pool2, api2, not http2))
             seq = [r.randrange(len(NEAR)) for _ in range(12)]
             cnt["sequences"] += 1
             carried = {}  # transport -> set of origins
@@ -213,13 +243,16 @@ def run_sequences(case):
                 explicit = r.random() < 0.5
                 dflt = {"http": 80, "https": 443, "ws": 80, "wss": 443}[scheme]
                 hp = f"{host}:{port}" if (explicit or port != dflt) else host
-                ctx = {"sequence": [NEAR[x] for x in seq[:j + 1]], "proxy": proxy, "http2": http2, "flavor": flavor,
-                       "port_kind": "explicit" if (explicit or port != dflt) else "implicit"}
-                out = await guarded(flavor, lambda: api.request("GET", f"{scheme}://{hp}/s", headers=[("X-Token", tok)]))
-                judge_request(net, origins, px, proxy, True, http2, scheme, host, port, tok, None, cnt, v, ctx)
+                pool_i = r.randrange(len(pools))
+                _, api_i, http2_i = pools[pool_i]
+                ctx = {"sequence": [NEAR[x] for x in seq[:j + 1]], "proxy": proxy, "http2": http2_i, "flavor": flavor,
+                       "port_kind": "explicit" if (explicit or port != dflt) else "implicit",
+                       "shared_ssl_context": shared is not None, "pools": len(pools), "pool": pool_i}
+                out = await guarded(flavor, lambda: api_i.request("GET", f"{scheme}://{hp}/s", headers=[("X-Token", tok)]))
+                judge_request(net, origins, px, proxy, True, http2_i, scheme, host, port, tok, None, cnt, v, ctx)
                 for (h, p), o in origins.items():
                     for req, resp in o.by_token.get(tok.encode(), []):
-                        carried.setdefault(req.tr, set()).add((scheme, host, port))
+                        carried.setdefault(req.tr, set()).add((scheme, host, port, pool_i))
                         cnt["oracle_transport_origin"] += 1
                         if len(carried[req.tr]) > 1:
                             v("connection-shared-by-different-origins", f"transport {req.tr} carried requests of "
@@ -229,10 +262,11 @@ def run_sequences(case):
                     v(f"request-failed:{scheme}:{proxy or 'direct'}:{exc_name(out.exc) if out.kind == 'exc' else out.kind}",
                       f"{out!r}", ctx)
                     break
-            sigs.add(f"seq|{proxy}|{http2}|{seq}")
+            sigs.add(f"seq|{proxy}|{http2}|{shared is not None}|{len(pools)}|{seq}")
             if not sample:
                 sample.update({"sequence": [NEAR[x] for x in seq], "proxy": proxy, "transports": {str(k): sorted(v_) for k, v_ in carried.items()}})
-            await guarded(flavor, api.close_pool)
+            for _, a_, _ in pools:
+                await guarded(flavor, a_.close_pool)
 
     run_flavor(flavor, None, main, seed=case["seed"])
     return {"viol": viol, "counters": cnt, "sigs": sorted(sigs), "sample": sample or None}
